@@ -39,12 +39,55 @@ theorem erase_isMarker (n : Node) :
     C14.isMarker (erase n) = (match n.val with | .emphMarker _ _ _ _ _ => true | _ => false) := by
   rw [erase_eq]; unfold C14.isMarker; cases n.val <;> rfl
 
-theorem erase_markerToText (n : Node) : erase (markerToText n) = Join.markerToText (erase n) := by
-  obtain ⟨v, r, cs⟩ := n
-  cases v <;> simp [markerToText, Join.markerToText, erase]
+/-! ## the head view: kind, content, range — all `NormalForm` looks at -/
 
-theorem eraseList_pass1 (cs : List Node) : eraseList (pass1 cs) = Join.pass1 (eraseList cs) := by
-  simp [eraseList_eq_map, pass1, Join.pass1, erase_markerToText]
+/-- forget children and the `remaining` field (junk on a text node made from a marker) -/
+def hd (n : INode) : INode := { n with children := [], remaining := 0 }
+
+theorem hd_isText (n : INode) : (hd n).isText = n.isText := rfl
+theorem hd_content (n : INode) : (hd n).content = n.content := rfl
+theorem hd_isMarker (n : INode) : C14.isMarker (hd n) = C14.isMarker n := rfl
+
+theorem noAdj_map_hd (l : List INode) : C14.NoAdjText (l.map hd) ↔ C14.NoAdjText l := by
+  induction l with
+  | nil => simp [C14.NoAdjText]
+  | cons x r ih =>
+    simp only [List.map_cons, C14.NoAdjText, ih]
+    cases r with
+    | nil => simp
+    | cons y r' => simp [hd_isText]
+
+theorem normalForm_map_hd (l : List INode) : C14.NormalForm (l.map hd) ↔ C14.NormalForm l := by
+  constructor
+  · intro h
+    refine ⟨?_, ?_, (noAdj_map_hd l).mp h.noAdj⟩
+    · intro n hn; have := h.noMarker (hd n) (List.mem_map_of_mem hn); rwa [hd_isMarker] at this
+    · intro n hn ht
+      have := h.noEmpty (hd n) (List.mem_map_of_mem hn) (by rw [hd_isText]; exact ht)
+      rwa [hd_content] at this
+  · intro h
+    refine ⟨?_, ?_, (noAdj_map_hd l).mpr h.noAdj⟩
+    · intro n hn
+      obtain ⟨a, ha, rfl⟩ := List.mem_map.mp hn
+      rw [hd_isMarker]; exact h.noMarker a ha
+    · intro n hn ht
+      obtain ⟨a, ha, rfl⟩ := List.mem_map.mp hn
+      rw [hd_content]; exact h.noEmpty a ha (by rwa [hd_isText] at ht)
+
+theorem normalForm_congr {l l' : List INode} (h : l.map hd = l'.map hd) :
+    C14.NormalForm l ↔ C14.NormalForm l' := by
+  rw [← normalForm_map_hd l, ← normalForm_map_hd l', h]
+
+/-! ## `fragments_join` through the projection, up to the head view -/
+
+theorem hd_erase_markerToText (n : Node) :
+    hd (erase (markerToText n)) = hd (Join.markerToText (erase n)) := by
+  obtain ⟨v, r, cs⟩ := n
+  cases v <;> simp [markerToText, Join.markerToText, erase, hd]
+
+theorem hd_eraseList_pass1 (cs : List Node) :
+    (eraseList (pass1 cs)).map hd = (Join.pass1 (eraseList cs)).map hd := by
+  simp [eraseList_eq_map, pass1, Join.pass1, hd_erase_markerToText]
 
 theorem erase_emptied (n : Node) (h : n.isText = true) : erase (emptied n) = Join.emptied (erase n) := by
   obtain ⟨v, r, cs⟩ := n
@@ -56,6 +99,7 @@ theorem erase_merged (t1 t2 : Node) (h1 : t1.isText = true) :
   have hc2 := erase_content t2
   obtain ⟨v, r, cs⟩ := t1
   cases v <;> simp_all [merged, Join.merged, erase, Node.isText, Node.content]
+  rcases r with _ | ⟨a, b⟩ <;> rcases t2.range with _ | ⟨c, d⟩ <;> rfl
 
 theorem eraseList_mergeLoop (cur : Node) (rest : List Node) :
     eraseList (mergeLoop cur rest) = Join.mergeLoop (erase cur) (eraseList rest) := by
@@ -85,12 +129,47 @@ theorem eraseList_filter_keep (l : List Node) :
     simp only [List.filter_cons, eraseList, erase_keep]
     split <;> simp [eraseList, ih]
 
-/-- `fragments_join` commutes with the projection -/
-theorem eraseList_fragmentsJoinN (cs : List Node) :
-    eraseList (fragmentsJoinN cs) = Join.fragmentsJoin (eraseList cs) := by
+/-- pass 2 of `MdIt.Join` reads kinds and contents only: it commutes with the head view -/
+theorem hd_mergeLoop (x : INode) (ys : List INode) :
+    (Join.mergeLoop x ys).map hd = Join.mergeLoop (hd x) (ys.map hd) := by
+  induction ys generalizing x with
+  | nil => simp [Join.mergeLoop]
+  | cons y ys ih =>
+    have e1 : hd (Join.emptied y) = Join.emptied (hd y) := rfl
+    have e2 : hd (Join.merged x y) = Join.merged (hd x) (hd y) := rfl
+    by_cases h : (x.isText && y.isText) = true
+    · simp only [Join.mergeLoop, List.map_cons, hd_isText, h, if_true, ih, e1, e2]
+    · simp only [Join.mergeLoop, List.map_cons, hd_isText, h]
+      simp [ih]
+
+theorem hd_mergeAll (l : List INode) : (Join.mergeAll l).map hd = Join.mergeAll (l.map hd) := by
+  cases l with
+  | nil => rfl
+  | cons c r => simp [Join.mergeAll, hd_mergeLoop]
+
+theorem hd_filter_keep (l : List INode) :
+    (l.filter Join.keep).map hd = (l.map hd).filter Join.keep := by
+  induction l with
+  | nil => rfl
+  | cons c cs ih =>
+    have hk : Join.keep (hd c) = Join.keep c := rfl
+    simp only [List.filter_cons, List.map_cons, hk]
+    split <;> simp [ih]
+
+/-- `fragments_join` of this model and of `MdIt.Join` agree on everything but the junk field -/
+theorem hd_eraseList_fragmentsJoinN (cs : List Node) :
+    (eraseList (fragmentsJoinN cs)).map hd = (Join.fragmentsJoin (eraseList cs)).map hd := by
   rw [Join.fragmentsJoin_eq]
   unfold fragmentsJoinN Join.fragmentsJoinL
-  rw [eraseList_filter_keep, eraseList_mergeAll, eraseList_pass1]
+  rw [eraseList_filter_keep, eraseList_mergeAll, hd_filter_keep, hd_mergeAll, hd_eraseList_pass1,
+    ← hd_mergeAll, ← hd_filter_keep]
+
+/-- **the text normal form after `fragments_join`** (from `C14.join_normal_form`) -/
+theorem normalForm_fragmentsJoinN (cs : List Node) :
+    C14.NormalForm (eraseList (fragmentsJoinN cs)) :=
+  (normalForm_congr (hd_eraseList_fragmentsJoinN cs)).mpr (C14.join_normal_form _)
+
+/-! ## `FragmentsJoin::run` -/
 
 theorem joinNodeN_eq (n : Node) :
     joinNodeN n = { n with children := joinListN (fragmentsJoinN n.children) } := by
@@ -102,43 +181,59 @@ theorem joinListN_cons (c : Node) (cs : List Node) :
 
 theorem joinListN_nil : joinListN [] = [] := by rw [joinListN]
 
-theorem erase_with_children (n : Node) (cs : List Node) :
-    erase { n with children := cs } = { erase n with children := eraseList cs } := by
-  obtain ⟨v, r, cs0⟩ := n
-  cases v <;> simp [erase]
+theorem joinListN_eq_map (l : List Node) : joinListN l = l.map joinNodeN := by
+  induction l with
+  | nil => rw [joinListN_nil]; rfl
+  | cons c cs ih => rw [joinListN_cons, ih]; rfl
 
-theorem erase_join_aux (k : Nat) :
-    (∀ n, nsize n ≤ k → erase (joinNodeN n) = Join.joinNode (erase n)) ∧
-    (∀ l, nsizeList l ≤ k → eraseList (joinListN l) = Join.joinList (eraseList l)) := by
+theorem joinNodeN_val (n : Node) : (joinNodeN n).val = n.val := by rw [joinNodeN_eq]
+theorem joinNodeN_children (n : Node) :
+    (joinNodeN n).children = joinListN (fragmentsJoinN n.children) := by rw [joinNodeN_eq]
+
+theorem hd_erase_joinNodeN (n : Node) : hd (erase (joinNodeN n)) = hd (erase n) := by
+  rw [joinNodeN_eq]
+  obtain ⟨v, r, cs⟩ := n
+  cases v <;> simp [erase, hd]
+
+theorem allNF_join_aux (k : Nat) :
+    (∀ n, nsize n ≤ k → C14.AllNF (erase (joinNodeN n))) ∧
+    (∀ l, nsizeList l ≤ k → C14.AllNFList (eraseList (joinListN l))) := by
   induction k with
   | zero =>
     constructor
     · intro n hn; rw [nsize_eq] at hn; omega
     · intro l hl
       cases l with
-      | nil => rw [joinListN_nil]; simp [eraseList, Join.joinList]
+      | nil => rw [joinListN_nil]; simp [eraseList, C14.AllNFList]
       | cons c cs => simp only [nsizeList] at hl; have := nsize_eq c; omega
   | succ k ih =>
-    have hnode : ∀ n, nsize n ≤ k + 1 → erase (joinNodeN n) = Join.joinNode (erase n) := by
+    have hnode : ∀ n, nsize n ≤ k + 1 → C14.AllNF (erase (joinNodeN n)) := by
       intro n hn
-      rw [joinNodeN_eq, erase_with_children, Join.joinNode, erase_children]
-      have hle := nsizeList_fragmentsJoinN_le n.children
-      rw [nsize_eq] at hn
-      rw [ih.2 _ (by omega), eraseList_fragmentsJoinN]
+      rw [C14.AllNF_eq, erase_children, joinNodeN_children]
+      constructor
+      · -- the walk below changes no kind and no content of these siblings
+        have : (eraseList (joinListN (fragmentsJoinN n.children))).map hd
+            = (eraseList (fragmentsJoinN n.children)).map hd := by
+          rw [joinListN_eq_map, eraseList_eq_map, eraseList_eq_map]
+          simp [hd_erase_joinNodeN]
+        exact (normalForm_congr this).mpr (normalForm_fragmentsJoinN _)
+      · apply ih.2
+        have := nsizeList_fragmentsJoinN_le n.children
+        rw [nsize_eq] at hn; omega
     refine ⟨hnode, ?_⟩
     intro l hl
     induction l with
-    | nil => rw [joinListN_nil]; simp [eraseList, Join.joinList]
+    | nil => rw [joinListN_nil]; simp [eraseList, C14.AllNFList]
     | cons c cs ihl =>
       rw [joinListN_cons]
       simp only [nsizeList] at hl
       have := nsize_eq c
-      simp only [eraseList]
-      rw [Join.joinList, hnode c (by omega), ihl (by omega)]
+      simp only [eraseList, C14.AllNFList]
+      exact ⟨hnode c (by omega), ihl (by omega)⟩
 
-/-- **`FragmentsJoin::run` commutes with the projection**: the post pass of this model IS
-    `Join.joinAll` on what `MdIt.Join` can see of the tree -/
-theorem erase_joinAllN (root : Node) : erase (joinAllN root) = Join.joinAll (erase root) :=
-  (erase_join_aux (nsize root)).1 root (Nat.le_refl _)
+/-- **After `FragmentsJoin::run` every node of the tree has its children in normal form** (no
+    marker, no empty text, no two adjacent texts), at every depth — `C14.AllNF` of the projection. -/
+theorem allNF_joinAllN (root : Node) : C14.AllNF (erase (joinAllN root)) :=
+  (allNF_join_aux (nsize root)).1 root (Nat.le_refl _)
 
 end MdIt.Inline
